@@ -79,6 +79,9 @@ def opConv (ws : List String) : String :=
       if vals.length ≠ 2 * n ∨ h ≤ 0 ∨ w ≤ 0 then "bad-op" else
       let ma := (vals.take n).toArray
       let da := (vals.drop n).toArray
+      -- `getcorr` / `fast` / `full`: the shift kind the source uses now
+      let kind := if kind = "getcorr" then Gen.getcorr_shift else if kind = "fast" then Gen.fast_corr_shift
+        else if kind = "full" then Gen.full_corr_shift else kind
       joinRats (flat (corrMap kind (img ma w) (img da w) h w) h w)
     | _, _, _ => "bad-op"
   | _ => "bad-op"
@@ -143,6 +146,9 @@ def step (line : String) : String :=
   | "logarg" :: ws => opLogArg ws
   | "shift" :: ws => opShift ws
   | "usgeom" :: ws => opUsGeom ws
+  | "uscenter" :: ws => (match ints? ws with
+      | some [n] => s!"{Gen.us_corr_center n} {shiftSrc Gen.fast_corr_shift n 0} {shiftSrc Gen.full_corr_shift n 0}"
+      | _ => "bad-op")
   | "dtype" :: ws => opDType ws
   | _ => "bad-op"
 
